@@ -267,6 +267,14 @@ func (i *IPC) ProxyAnswers(arg messages.Arg, response *[]byte) error {
 		// The snowflake took too long to respond with an answer, so its client
 		// disappeared / the snowflake is no longer recognized by the Broker.
 		success = false
+	} else {
+		select {
+		case snowflake.answerChannel <- answer:
+		case <-time.After(time.Second * ClientTimeout):
+			// The client stopped waiting between the lookup above and
+			// now, so nobody will ever receive from the channel.
+			success = false
+		}
 	}
 
 	b, err := messages.EncodeAnswerResponse(success)
@@ -275,10 +283,6 @@ func (i *IPC) ProxyAnswers(arg messages.Arg, response *[]byte) error {
 		return messages.ErrInternal
 	}
 	*response = b
-
-	if success {
-		snowflake.answerChannel <- answer
-	}
 
 	return nil
 }
